@@ -42,7 +42,7 @@ def generate(seed, run, tier):
 
         for wv in [spec['world']] + spec['pool_worlds']:
             if r.random() < 0.4:
-                plant_door_scene(r, wv, spec['colors'], spec['unique'])
+                plant_door_scene(r, wv, spec['colors'], spec['unique'], spec['types'])
     rec['clients'] = [spec]
     n = r.randint(30, 120 if not big else 300)
 
